@@ -26,7 +26,7 @@ FLOORS = {"quick": {"pairs": 10000, "flag:inner_links": 1000, "flag:same_link_ba
 @st.composite
 def st_case(draw) -> Dict[str, Any]:
     net = draw(st.sampled_from(["gen", "gen", "gen", "denver", "hav"]))
-    g = draw(graphs.st_graph(4, 14, arbitrary_lengths=draw(st.booleans()))) if net == "gen" else None
+    g = draw(graphs.st_graph(4, 14, arbitrary_lengths=draw(st.booleans()), scales=(1, 1, 1, 3))) if net == "gen" else None
     if net == "hav":
         cell = st.tuples(st.just("cell"), st.integers(0, 300), st.integers(0, 300)).map(lambda t: ["cell", round(graphs.LAT0 + t[1] * 0.00008, 6), round(graphs.LON0 + t[2] * 0.00008, 6)])
         pairs = draw(st.lists(st.tuples(cell, cell).map(list), min_size=1, max_size=8))
